@@ -167,7 +167,9 @@ class Recorder:
         c = self.cur
         if c is not None and c['avg'] is not None:
             with np.errstate(all='ignore'):
-                m = float(np.sum(c['avg'] ** 2) / np.sum(c['p'] ** 2))
+                # (the documented ratio, in floating point whatever dtype the signal is stored in: squares of small
+                #  integer types wrap around)
+                m = float(np.sum(np.asarray(c['avg'], float) ** 2) / np.sum(np.asarray(c['p'], float) ** 2))
             thr = float(c['sd'])
             near = (not np.isfinite(m)) or abs(m - thr) <= 1e-9 * max(abs(thr), 1e-300)
             self._stop_event(out[0], m < thr, near)
